@@ -65,7 +65,7 @@ def chk_step(root, i, mode):
             bad = "+".join(n for n, a, b in zip(names, got[1], exp[1]) if a != b)
             return "violation", True, [V("%s:PrvKeyNode.ckd:%s:wrong-%s" % (P, cls, bad), "ckd(%d) on %r with PRF %s" % (i, root, label), got[1], exp[1])]
         # strings printed for the child
-        child = keep["root"].children[-1]
+        child = keep["child"]
         st, strs = attempt(node_strings, child)
         refn = hd.derive(hdscen.ref_root(root), [i])
         if st != "ok" or strs != ref_strings(refn, root.get("testnet", False)):
@@ -134,6 +134,46 @@ class Tree:
         return {"canon": canon if not viols else ["bad", hist, len(fails)], "viols": viols, "label": label}
 
 
+def chk_entry(root, i):
+    """one (parent, index) through EVERY entry point that derives a private child: all must return the reference child"""
+    from btc_hd_wallet.base_wallet import BaseWallet
+    refn = hd.derive(hdscen.ref_root(root), [i])
+    exp = hdscen.canon_ref_node(refn)
+    t = root.get("testnet", False)
+    xk = hdscen.root_xkey(root)
+    mark = "%d'" % (i - H) if i >= H else "%d" % i
+    lo, hi = max(0, i - 2), min(2**32, i + 3)
+    ways = {
+        "ckd(index=)": lambda: hdscen.impl_root(root).ckd(index=i),
+        "derive_path": lambda: hdscen.impl_root(root).derive_path([i]),
+        "generate_children(i,i+1)": lambda: hdscen.impl_root(root).generate_children((i, i + 1))[0],
+        "generate_children(window)": lambda: hdscen.impl_root(root).generate_children((lo, hi))[i - lo],
+        "generate_children(interval=)": lambda: hdscen.impl_root(root).generate_children(interval=(lo, hi))[i - lo],
+        "from_extended_key.master.ckd": lambda: BaseWallet.from_extended_key(xk).master.ckd(i),
+        "from_extended_key.master.generate_children": lambda: BaseWallet.from_extended_key(xk).master.generate_children((lo, hi))[i - lo],
+        "wallet.by_path": lambda: BaseWallet.from_extended_key(xk).by_path("m/" + mark),
+        "second-call-same-node": lambda: (lambda n: (n.ckd(i), n.ckd(i))[1])(hdscen.impl_root(root)),
+        "after-neighbour": lambda: (lambda n: (n.ckd(i ^ H), n.ckd(i))[1])(hdscen.impl_root(root)),
+    }
+    viols = []
+    cls = "hardened" if i >= H else "normal"
+    for name, f in ways.items():
+        if root.get("depth") and name.startswith(("wallet.by_path",)):
+            continue
+        st, node = attempt(f)
+        if st != "ok":
+            viols.append(V("%s:entry:%s:%s:refused" % (P, name, cls), "%s for index %d on %r raised %s" % (name, i, root, node)))
+            continue
+        got = hdscen.canon_impl_node(node)
+        if got != exp:
+            viols.append(V("%s:entry:%s:%s:wrong-node" % (P, name, cls), "%s for index %d on %r" % (name, i, root), got, exp))
+            continue
+        sst, strs = attempt(node_strings, node)
+        if sst != "ok" or strs != ref_strings(refn, t):
+            viols.append(V("%s:entry:%s:%s:wrong-strings" % (P, name, cls), "extended keys via %s for index %d" % (name, i), strs, ref_strings(refn, t)))
+    return viols
+
+
 def _ev_judge(i):
     """single steps on MANY distinct parents (normal and hardened alternate)"""
     root = {"k": 0xD15C0 + 977 * i, "chain": "%064x" % (0x5eed + i)}
@@ -156,6 +196,11 @@ def execute(case):
         else:
             o, nt, vs = chk_step(case["root"], case["i"], tuple(case["mode"]))
         return R(o, nontrivial=nt, viols=vs)
+    if case["k"] == "entry":
+        vs = chk_entry(case["root"], case["i"])
+        for v in vs:
+            v["case"] = case
+        return R("violation" if vs else "all-entry-points-agree", viols=vs, n=10)
     if case["k"] == "tree":
         r = Tree(case["root"], case["alphabet"]).run(case["hist"])
         for v in r["viols"]:
@@ -192,6 +237,39 @@ def run(ctx):
                     for mode in MODES:
                         cases.append({"k": "step", "root": root, "i": i, "mode": list(mode)})
     ctx.product("single-step-product", cases, execute)
+    # corner classes of the computed intermediates (vf/corners.py): IL, IR, child scalar, parent x coordinate, parent fingerprint -
+    # every byte position 00 / ff and every first / last byte value, once for normal and once for hardened children
+    from .. import corners
+    from ..ref import enc
+    for hard in (False, True):
+        base = int.from_bytes(enc.sha256(b"C01-corner-base-%d-%d" % (ctx.seed, hard)), "big") % (N - 10**6) + 1
+
+        def cands():
+            for n_, (k, pt) in enumerate(corners.scalar_walk(base, secp)):
+                chain = enc.sha256(b"C01-chain-%d" % n_)
+                i = (H if hard else 0) + int.from_bytes(enc.sha256(b"C01-idx-%d" % n_)[:4], "big") % H
+                sec_ = secp.sec(pt)
+                data = (b"\x00" + k.to_bytes(32, "big") if hard else sec_) + i.to_bytes(4, "big")
+                I_ = enc.hmac_sha512(chain, data)
+                il = int.from_bytes(I_[:32], "big")
+                if il >= N or (il + k) % N == 0:
+                    continue
+                yield ({"k": k, "chain": chain.hex()}, i), {"IL": I_[:32], "IR": I_[32:], "child": ((il + k) % N).to_bytes(32, "big"),
+                                                            "x": sec_[1:], "fp": enc.hash160(sec_)[:4]}
+        kept, st = corners.cover(cands(), {"IL": 32, "IR": 32, "child": 32, "x": 32, "fp": 4}, 60000, pairs=ctx.thorough)
+        ctx.extra["intermediate_corner_classes_" + ("hardened" if hard else "normal")] = st
+        if st["covered"] != st["classes"]:
+            raise HarnessError("corner cover incomplete: %r" % (st,))
+        ctx.product("intermediate-corners-" + ("hardened" if hard else "normal"),
+                    [{"k": "step", "root": c[0], "i": c[1], "mode": ["real", None]} for c, _ in kept] +
+                    # ... and the cornered CHILD used as a parent in turn (its key bytes, fingerprint, chain code feed the next step)
+                    [{"k": "tree", "root": c[0], "alphabet": [c[1], j], "hist": [c[1], j]} for n_, (c, _) in enumerate(kept) for j in (n_ % 7, H + n_ % 5)],
+                    execute, chunk=8)
+    # every entry point that derives a private child (ckd, derive_path, bulk generation with windows that straddle 2^31,
+    # nodes and wallets built from the serialised parent, by_path) x the index alphabet x direct / parsed / testnet parents
+    eroots = [{"k": K[3], "chain": CC[2]}, {"k": K[6], "chain": CC[2], "testnet": True},
+              {"k": K[4], "chain": CC[2], "depth": 3, "index": H + 7, "pfp": "a1b2c3d4", "parsed": True}]
+    ctx.product("entry-points", [{"k": "entry", "root": rt, "i": i} for rt in eroots for i in I + [H - 2, H + 2, 2**32 - 2]], execute, chunk=2)
     from ..bfs import eviction_probe, PureCalls
     ev_sizes = (1, 2, 3, 4, 5, 8, 9, 16, 17, 32, 33, 64, 65, 128, 129) + ((256, 257) if ctx.thorough else ())
     eviction_probe(ctx, "distinct-parent-revisits", PureCalls(10**6, _ev_judge, P), lambda i: i, sizes=ev_sizes)                 # normal children
